@@ -29,6 +29,9 @@ type KB struct {
 	OnSync   bool     `json:"on_sync"`
 	OnlyNs   string   `json:"only_ns,omitempty"` // namespace.nameSelector with this namespace
 	Queue    string   `json:"queue,omitempty"`
+	// AllowFail: allowFailure of the binding (only generated for hooks whose executions never fail, so it
+	// must not make any difference)
+	AllowFail bool `json:"allow_failure,omitempty"`
 }
 
 type SB struct {
@@ -204,6 +207,11 @@ func Gen(t *rapid.T) Case {
 			hs.MonitorFails = rapid.IntRange(1, 2).Draw(t, "nmonfail")
 			hs.MonitorFailIndex = rapid.IntRange(0, len(hs.Kube)-1).Draw(t, "monfailidx")
 		}
+		if hs.SyncFails == 0 && hs.StartupFails == 0 && !hs.V0 {
+			for i := range hs.Kube {
+				hs.Kube[i].AllowFail = rapid.IntRange(0, 2).Draw(t, "allowfail") == 0
+			}
+		}
 		if hs.OnStartup == nil && len(hs.Kube) == 0 && len(hs.Sched) == 0 {
 			o := 1
 			hs.OnStartup = &o
@@ -289,6 +297,9 @@ func (h HookSpec) Config() string {
 	d := hcfg.D{OnStartup: h.OnStartup}
 	for _, k := range h.Kube {
 		kk := hcfg.Kube{Name: k.Name, Kind: "ConfigMap", ApiVersion: "v1", JqFilter: k.Jq, Group: k.Group, Includes: k.Includes, Queue: k.Queue, KeepFull: hcfg.B(k.KeepFull), OnSync: hcfg.B(k.OnSync)}
+		if k.AllowFail {
+			kk.AllowFail = hcfg.B(true)
+		}
 		if !k.AllEv {
 			evs := append([]string{}, k.Events...)
 			kk.Events = &evs
